@@ -78,3 +78,13 @@ KERNEL int K(k_flip3_twice)(const size_t* shape, const unsigned* data, int axis,
   auto f1 = view::flip(a, axis);
   return observe(view::flip(f1, axis), idx, nidx, oshape, odim, out);
 }
+
+// list-valued arguments: moveaxis with two source/destination axes, flip with a list of two axes (entries possibly negative)
+KERNEL int K(k_moveaxis3_list)(const size_t* shape, const unsigned* data, const int* src, const int* dst, const size_t* idx, size_t nidx, size_t* oshape, size_t* odim, unsigned* out){
+  a3_t a; if (!mk3(a,shape,data)) return -1;
+  return observe(view::moveaxis(a, mk_arr<int,2>(src), mk_arr<int,2>(dst)), idx, nidx, oshape, odim, out);
+}
+KERNEL int K(k_flip3_list)(const size_t* shape, const unsigned* data, const int* axes, const size_t* idx, size_t nidx, size_t* oshape, size_t* odim, unsigned* out){
+  a3_t a; if (!mk3(a,shape,data)) return -1;
+  return observe(view::flip(a, mk_arr<int,2>(axes)), idx, nidx, oshape, odim, out);
+}
